@@ -32,6 +32,10 @@ def run_table(tier, seed):
                             sc = G.scalings_of(spec, (0, 1))[k % 2]
                             k += 1
                             out.append({"t": "run", "spec": spec, "cfg": c, "sc": sc, "fault": fault})
+    # long runs: thousands of trials per controller (tiny initial steps)
+    for control in G.R.CONTROLS:
+        out.append({"t": "run", "spec": specs[0], "cfg": {"control": control, "newton": "Simplified", "step_solver": "Symmetric", "iteration_limit": 4000,
+                                                          "params": {"lamb_max": 1e12, "lamb_init": 300.0, "lamb_red": 1.0}}, "sc": None, "fault": None})
     for spec in specs[:4]:
         for vi in range(len(G.PARAM_VARIANTS)):
             for control in G.R.CONTROLS:
